@@ -162,4 +162,12 @@ def sitePages (root : Dir) (rootName : Str) (M : Nat) : Except SiteErr (List Pag
     let unscaled := (categoryPages M none chain [] true root).1
     .ok (homePage :: scaled ++ unscaled)
 
+/-- the factor a recipe page is rendered with: `recipe.render(Fraction(servings, recipe.servings) if servings is not None else 1)`
+    (`RecipePage.from_recipe_source`) and likewise `generate_standalone_page(servings=…)`; `none` is the `ZeroDivisionError` raised for a
+    recipe whose title states 0 servings (outside the quantifier of C15: "all stated serving counts >= 1") -/
+def pageScale (servings : Option Nat) (native : Option Nat) : Option Num :=
+  match native, servings with
+  | some nat, some n => if nat = 0 then none else some ⟨mkRat n nat, .frac⟩
+  | _, _ => some ⟨1, .int⟩
+
 end RG
